@@ -140,6 +140,16 @@ void dec_run(dec_spec *s, const lzma_allocator *a, const uint8_t *in, size_t in_
 {
 	memset(res, 0, sizeof(*res));
 	lzma_stream strm = LZMA_STREAM_INIT;
+	if (s->warm_in != NULL && s->kind != D_FILE_INFO && s->kind != D_INDEX) {
+		// use the handle once for another input of the same decoder, then re-initialise it without lzma_end()
+		if (dec_init(&strm, s, a, s->warm_in, s->warm_n) == LZMA_OK) {
+			slice_plan wp = { .mode = SL_WHOLE, .final_action = LZMA_FINISH, .continue_informational = true };
+			vbuf wo = {0}; slice_result wr;
+			slicer_run(&strm, s->warm_in + s->skip, s->warm_n - s->skip, &wo, &wp, &wr);
+			vbuf_free(&wo);
+		}
+		if (s->block_inited) { lzma_filters_free(s->bf, a); s->block_inited = false; }
+	}
 	lzma_ret ret = dec_init(&strm, s, a, in, in_size);
 	if (ret != LZMA_OK) {
 		res->init_failed = true; res->init_ret = ret; res->ret = ret;
